@@ -7,6 +7,7 @@ from vlib.common import Sub, Violation, call, must_raise, trip, same_multiset, O
 from checks.nnlib import pyrepseq, nn, related_queries, CUSTOM, custom_neighbours_self, custom_neighbours_cross
 
 PROPERTY = "C10"
+QUICK_SCALE = 3
 RULE = ("search cases (clonal-family repertoires, optional second collection of a different size, Levenshtein or Hamming mode, "
         "k=1..2, or a callable custom distance with non-integer values) x output_type in {triplets, coo_matrix, ndarray} x container in {list, tuple, ndarray, Series with default / "
         "shifted / permuted-integer / string / duplicated index} (independently for both collections) x engine in "
